@@ -374,7 +374,7 @@ example :
 /-- **C18.next_build_ok.** An interrupted (or killed) `grog build` leaves (1) possibly a lock file and dead lock holders,
     (2) a cache in which the interrupted process's in-flight writes landed or not, (3) a workspace with arbitrary content at
     the output paths. The next `grog build`:
-      1. gets the workspace lock within nine of its own file-system calls once no other live process holds it — wherever
+      1. gets the workspace lock within ten of its own file-system calls once every other process is dead, done or not started — wherever
          the interrupted process died in `Lock`/`Unlock`, whatever it left at the lock path (`C10.stale_never_blocks`);
       2. reads a sound cache from the surviving store state — `es` is *any* history of the store model, in particular one
          with `crash p landed` of the interrupted process at any point (`recovery_cache_sound`, C07);
@@ -382,7 +382,8 @@ example :
          (`C01.build_eq_clean`): what the interrupted build did not finish is re-executed, nothing half-written is used. -/
 theorem next_build_ok {P : Params κ} (hG : Good P) (hfx : P.fx.gateChecks = true)
     -- the lock
-    {sL : Lock.State} (hL : Lock.Reach sL) (me : Nat) (hme : (sL.pc me).inLoop) (hdead : ∀ j, j ≠ me → sL.pc j = .dead)
+    {sL : Lock.State} (hL : Lock.Reach sL) (me : Nat) (hme : (sL.pc me).contending)
+    (hgone : ∀ j, j ≠ me → sL.pc j = .dead ∨ sL.pc j = .done ∨ sL.pc j = .idle)
     -- the cache after the interrupt
     (cd : Codec κ) (tn : Lbl → Bool) (H : Bytes → Bytes)
     (es : List Store.Ev) (s' : Store.State) (hr : Store.run H Store.init es = some s')
@@ -390,18 +391,18 @@ theorem next_build_ok {P : Params κ} (hG : Good P) (hfx : P.fx.gateChecks = tru
     -- the next build
     (cfg : Cfg) (hm : cfg.minimal = false) (defs : Defs) (fs : FS) (order : List Lbl) (hwf : WF defs order) (fs0 : FS)
     (hag : ∀ p, (∀ l ∈ order, ∀ t, defs l = some t → p ∉ outPaths t) → fs p = fs0 p) :
-    (∃ k, k ≤ 9 ∧ ∃ n, (Lock.solo me k sL).pc me = .holding n) ∧
+    (∃ k, k ≤ 10 ∧ ∃ n, (Lock.solo me k sL).pc me = .holding n) ∧
     CacheSound P (storeCache cd tn s') ∧
     (let s := build P cfg ⟨defs, fs, storeCache cd tn s'⟩ order
      let c := Spec.clean P.run defs fs0 order
      (succeeded s order = true ↔ ∀ l ∈ order, c.ok l = some true) ∧
      (succeeded s order = true → ∀ l ∈ order, ∀ t, defs l = some t → ∀ p ∈ outPaths t, s.fs p = c.fs p)) :=
-  ⟨C10.stale_never_blocks_all_dead hL me hme hdead,
+  ⟨C10.stale_never_blocks_others_gone hL me hme hgone,
    recovery_cache_sound P cd tn H es s' hr hw,
    recovery_next_build_eq_clean hG hfx cd tn H es s' hr hw cfg hm defs fs order hwf fs0 hag⟩
 
 /-- the hypotheses of `next_build_ok` are satisfiable: the lock state in which process 0 was killed while holding and
-    process 1 is in its acquisition loop (the example of `C10.stale_never_blocks_all_dead`), the store history of the first
+    process 1 is in its acquisition loop (`C10.afterHolderKilled`, a reachable state: `C10.afterHolderKilled_reach`), the store history of the first
     example (a process killed while its result write is in flight), `Good` parameters, the empty selection -/
 example :
     let sL := Lock.run (Lock.init true) [.step 0, .step 0, .step 0, .step 0, .step 0, .step 0, .step 1, .step 1, .crash 0]
